@@ -141,7 +141,8 @@ BUF = CORE + ["src/endpoints/buffer.c", "src/endpoints/trivial.c"]
 
 
 def _bufeps(tier):
-    sz, nch, szc = (3, 2, 2) if tier == "quick" else (5, 3, 2)
+    # three chunks also in quick: "an exhausted chunk directly followed by an empty one" needs them (seed C17-C)
+    sz, nch, szc = (3, 3, 2) if tier == "quick" else (5, 3, 2)
     total = nch * szc
     nop = sz + 1
     big = total + nop + 4 + 1
